@@ -175,6 +175,17 @@ public:
 		// std::cout << typeid(a).name() << " goes into " << typeid(*this).name() << std::endl;
 		//		static_assert(src_nbits > nbits, "Source fixpnt is bigger than target: potential loss of precision"); 
 		// TODO: do we want prohibit this condition? To be consistent with native types we need to round automatically.
+		constexpr unsigned upshift = (rbits > src_rbits ? rbits - src_rbits : 0);
+		if constexpr (arithmetic == Saturate && src_nbits + upshift > nbits) {
+			// saturate when the aligned value does not fit: align it in a modulo fixpnt that can hold every result
+			fixpnt<src_nbits, src_rbits, Modulo, bt> modular; modular = a.bits();
+			blockbinary<src_nbits + upshift, bt> c = fixpnt<src_nbits + upshift, rbits, Modulo, bt>(modular).bits();
+			fixpnt<nbits, rbits, arithmetic, bt> maxpos(SpecificValue::maxpos), maxneg(SpecificValue::maxneg);
+			blockbinary<src_nbits + upshift, bt> saturation = maxpos.bits();
+			if (c >= saturation) return *this = maxpos;
+			saturation = maxneg.bits();
+			if (c <= saturation) return *this = maxneg;
+		}
 		if constexpr (src_nbits <= nbits) {
 			_block = a.bits();
 			if constexpr (src_nbits < nbits) {
